@@ -285,6 +285,45 @@ def run_loader_layout(ctx, rng, root):
                       {'kind': 'loadexpr'})
 
 
+def layer_package_specs(ctx):
+    """Package-relative specs ('package:path'), as a name and as a search-path entry, resolve to the package's file."""
+    from chameleon import PageTemplateFile, PageTemplateLoader
+    import chameleon
+    base = os.path.join(os.path.dirname(chameleon.__file__), 'tests', 'inputs')
+    names = ['hello_world.pt', '001-variable-scope.pt', 'greeting.pt', '003-content.pt', '017-omit-tag.pt', '009-literals.pt',
+             '057-order.pt']
+    for nm in names:
+        try:
+            direct = PageTemplateFile(os.path.join(base, nm))(name='N', tagline='T')
+        except Exception:
+            continue          # this sample needs other variables: not usable here
+        variants = {
+            'spec': lambda: PageTemplateLoader([]).load('chameleon:tests/inputs/' + nm),
+            'search-path': lambda: PageTemplateLoader(['chameleon:tests/inputs']).load(nm),
+            'search-path-second': lambda: PageTemplateLoader(['/nonexistent-dir-xyz', 'chameleon:tests/inputs']).load(nm),
+            'default-extension': lambda: PageTemplateLoader(['chameleon:tests/inputs'], default_extension='.pt').load(nm[:-3]),
+        }
+        for vname, mk in variants.items():
+            try:
+                t = mk()
+                got = t(name='N', tagline='T')
+                pkg = t.package_name
+            except Exception as e:
+                got, pkg = 'RAISED %s %s' % (type(e).__name__, str(e)[:80]), None
+            ctx.mon('loads-compared')
+            ctx.case(key=('pkg', vname, nm), nontrivial=True)
+            if got != direct or pkg != 'chameleon':
+                ctx.violation('package-relative-resolution', '%s of %s: rendered %r (package_name %r), the file itself renders %r' % (
+                    vname, nm, got[:120], pkg, direct[:120]), {'kind': 'pkg', 'name': nm, 'variant': vname})
+    try:
+        PageTemplateLoader(['chameleon:tests/inputs']).load('no-such-template.pt')
+        ctx.violation('package-relative-resolution', 'a missing name in a package search path was loaded', {'kind': 'pkg'})
+    except ValueError:
+        pass
+    except Exception as e:
+        ctx.violation('package-relative-resolution', 'a missing name in a package search path raised %s' % type(e).__name__, {'kind': 'pkg'})
+
+
 def run(ctx):
     monitors.install(ctx, tokalg=False)
     import chameleon.template as T
@@ -305,6 +344,8 @@ def run(ctx):
             run_history(ctx, rng, root, cooks)
         finally:
             shutil.rmtree(root, ignore_errors=True)
+    if ctx.shard == 0:
+        layer_package_specs(ctx)
     for i in range(25 if ctx.quick else 500):
         root = tempfile.mkdtemp(prefix='c16l_')
         try:
